@@ -20,7 +20,8 @@ import (
 // table the real configuration code built, 50 times per host; (ii) end to
 // end: requests whose To host ranges over the universe, repeated.
 
-var routeHostUniverse = []string{"example.com", "a.example.com", "b.a.example.com", "aXexample.com", "example.org", "example.", "corp.test", "b.corp.test", "x.test", "test", "default", "*", "other.invalid", "a.example.comX", ".example.com"}
+var routeHostUniverse = []string{"example.com", "a.example.com", "b.a.example.com", "aXexample.com", "example.org", "example.", "corp.test", "b.corp.test", "x.test", "test", "default", "*", "other.invalid", "a.example.comX", ".example.com",
+	"exampleXcom", "example", "examples.org", "examplecom", "corpXtest", "Xtest", "atest", "example.com.", "EXAMPLE.COM"}
 
 func genRoutesPlan(seed uint64, tier string) *Plan {
 	g := newGen(seed)
